@@ -65,6 +65,15 @@ theorem C10_terminates_guarded (G : GEnv) (e : Expr) (r : RExpr) (hr : resolveBo
     obtain ⟨vf0, hv⟩ := C01_refines_calls G e r hr hu hwf hne text pf _ nid A hA
     exact ⟨A, vf0, hv⟩
 
+/-- the same with hypotheses on the source only (`WfG`, `WfE`: no empty `in` list) -/
+theorem C10_terminates_guarded_source (G : GEnv) (e : Expr) (r : RExpr) (hr : resolveBody G e = some r)
+    (hGw : WfG G) (he : WfE e) (hne : lenR r ≠ 0)
+    (pf : Nat) (rk : Nat → Nat) (R : Nat)
+    (hG : GuardedP pf (procsOf r) rk R) (hpe : predsOK pf r) (hok : okCalls (procsOf r) rk false R r = true)
+    (text : Bytes) (nid : Nat) :
+    ∃ A vf0, ∀ vf, vf0 ≤ vf → ∀ amt, findMatches pf vf (genBody r nid).1 amt text = some (.ok (window amt A)) :=
+  C10_terminates_guarded G e r hr (resolveBody_unique G e r hr) (resolveBody_wf G e r hGw he hr) hne pf rk R hG hpe hok text nid
+
 /-- decidable form: predicate-free programs with a rank table -/
 theorem C10_terminates_guardedB (G : GEnv) (e : Expr) (r : RExpr) (hr : resolveBody G e = some r)
     (hu : UniqueSubs r) (hwf : WfR r) (hne : lenR r ≠ 0) (ranks : List (Nat × Nat)) (R : Nat)
@@ -98,5 +107,6 @@ example : CallFree (.loop 0 (-1) false "" (.loop 0 (-1) false "" (.loop 0 1 fals
 #print axioms C10_spec_total_guarded
 #print axioms C10_terminates_guarded
 #print axioms C10_terminates_guardedB
+#print axioms C10_terminates_guarded_source
 
 end Vore
